@@ -100,6 +100,32 @@ def check_parquet_provenance(chk, kind, arr, exp_rows, subtype, aff, nparts):
             if len(pbt) != f.npartitions:
                 fail(chk, kind, f"read_parquet_dask({label})", subtype, aff, "", "number of partition_bounds rows", len(pbt), f.npartitions,
                      dict(site="DaskGeoSeries.partition_bounds", derivation="parquet"))
+        # twelve stored partitions (labels '10', '11' sort before '2' as strings), re-read with a box that prunes some of them:
+        # the extents reported for what is loaded are those of the rows loaded
+        if n >= 12:
+            pc = os.path.join(tmp, "c.parq")
+            dd.from_pandas(df.iloc[:12], npartitions=12).to_parquet(pc)
+            whole = read_parquet_dask(pc)
+            cb = [r for r in exp_rows[:12] if not math.isnan(r[0])]
+            if cb:
+                box = (cb[len(cb) // 2][0], cb[len(cb) // 2][1], cb[len(cb) // 2][2] + 1.0, cb[len(cb) // 2][3] + 1.0)
+                sub = read_parquet_dask(pc, bounds=box)
+                loaded = sub.compute()
+                chk.count(len(loaded))
+                if len(loaded):
+                    wantp = [float(v) for v in loaded.geometry.array.total_bounds]
+                    gotp = [float(v) for v in sub.geometry.total_bounds]
+                    if not M.rows_equal(gotp, wantp):
+                        fail(chk, kind, f"12 stored partitions, read_parquet_dask(bounds={box})", subtype, aff, "", "DaskGeoSeries.total_bounds of the pruned frame", gotp, wantp,
+                             dict(site="DaskGeoSeries.total_bounds", derivation="parquet-12-bounded"))
+                    pbs = sub.geometry.partition_bounds
+                    for k in range(sub.npartitions):
+                        tp = [float(v) for v in sub.get_partition(k).compute().geometry.array.total_bounds]
+                        gp = [float(pbs[c].iloc[k]) for c in ("x0", "y0", "x1", "y1")]
+                        if not M.rows_equal(gp, tp):
+                            fail(chk, kind, f"12 stored partitions, read_parquet_dask(bounds={box})", subtype, aff, "", f"partition_bounds row {k} of the pruned frame", gp, tp,
+                                 dict(site="DaskGeoSeries.partition_bounds", derivation="parquet-12-bounded"))
+                            break
     finally:
         shutil.rmtree(tmp, ignore_errors=True)
 
